@@ -376,8 +376,12 @@ func init() {
 			if tier == "thorough" {
 				cases, long = 14000, 250
 			}
+			startN := 0 // > 0: start from a random graph on that many vertices
 			gen := func(nops, maxN int) {
 				g := genEG(r, min(maxN, 8))
+				if startN > 0 {
+					g = randomEG(r, startN, []float64{0.04, 0.1, 0.2, 0.5}[r.Intn(4)])
+				}
 				var b strings.Builder
 				b.WriteString("c05 " + g.Tokens())
 				n := g.N
@@ -425,6 +429,13 @@ func init() {
 						n = kk
 					}
 				}
+				if startN > 0 && n > 2 {
+					kk := n - r.Intn(3)
+					b.WriteString(fmt.Sprintf(" is %d", kk))
+					for _, v := range subset(kk) {
+						b.WriteString(" " + strconv.Itoa(v))
+					}
+				}
 				emit(b.String())
 			}
 			for c := 0; c < cases; c++ {
@@ -442,6 +453,12 @@ func init() {
 			for c := 0; c < long; c++ {
 				gen(200+r.Intn(800), 16)
 			}
+			// larger graphs, few operations: neighbourhoods and vertex lists long enough for any size-dependent path
+			for c := 0; c < cases/12; c++ {
+				startN = 17 + r.Intn(28)
+				gen(1+r.Intn(6), 48)
+			}
+			startN = 0
 		},
 	})
 }
